@@ -130,6 +130,26 @@
         fn add(self, rhs: u32) -> (r: BigInt) { unimplemented!() }
     }
 
+    impl<'a> ShrSpecImpl<u32> for &'a BigInt {
+        open spec fn obeys_shr_spec() -> bool { true }
+        open spec fn shr_req(self, rhs: u32) -> bool { true }
+        open spec fn shr_spec(self, rhs: u32) -> BigInt { mk(self@ / (vstd::arithmetic::power2::pow2(rhs as nat) as int)) }
+    }
+    impl<'a> core::ops::Shr<u32> for &'a BigInt {
+        type Output = BigInt;
+        #[verifier::external_body]
+        fn shr(self, rhs: u32) -> (r: BigInt) { unimplemented!() }
+    }
+    impl<'a> ShlSpecImpl<u32> for &'a BigInt {
+        open spec fn obeys_shl_spec() -> bool { true }
+        open spec fn shl_req(self, rhs: u32) -> bool { true }
+        open spec fn shl_spec(self, rhs: u32) -> BigInt { mk(self@ * vstd::arithmetic::power2::pow2(rhs as nat)) }
+    }
+    impl<'a> core::ops::Shl<u32> for &'a BigInt {
+        type Output = BigInt;
+        #[verifier::external_body]
+        fn shl(self, rhs: u32) -> (r: BigInt) { unimplemented!() }
+    }
     impl<'a> ShrSpecImpl<u64> for &'a BigInt {
         open spec fn obeys_shr_spec() -> bool { true }
         open spec fn shr_req(self, rhs: u64) -> bool { true }
